@@ -174,8 +174,18 @@ func main() {
 					if t == 1 && lastPrecommitRound >= 0 && rd > lastPrecommitRound && b != lastPrecommitBlock {
 						unlocked := false
 						for q := lastPrecommitRound + 1; q <= rd; q++ {
-							if pb, ok := polkaFor(q); ok && pb != lastPrecommitBlock {
-								unlocked = true
+							// any block but the locked one with +2/3 among the votes sent (an equivocating
+							// validator can complete two polkas in one round)
+							cnt := map[string]int64{}
+							for v, xs := range recv[rk{q, 1}] {
+								for _, x := range xs {
+									cnt[x] += powers[v]
+								}
+							}
+							for pb, pw := range cnt {
+								if pb != lastPrecommitBlock && pw*3 > total*2 {
+									unlocked = true
+								}
 							}
 						}
 						if !unlocked {
